@@ -240,8 +240,13 @@ def real_part(ctx, quick):
                     problems.append((case, "h%d: out-h%d" % (k, k), (o[-200:] + e[-300:]).decode("latin-1"), "healthy host h%d did not get its output relayed (another host hanging harmed it)" % k)); break
                 if ("h%d: command timeout" % k) in errt:
                     problems.append((case, "no report for healthy h%d" % k, errt[-300:], "healthy host h%d was reported as timed out" % k)); break
-        if dt > 2 + 2 + 4:
-            problems.append((case, "<= 8 s", "%.1f s" % dt, "the run took %.1f s although the command timeout is 2 s and the watchdog period 2 s" % dt))
+        if dt > 2 + 2 + 6:
+            # wall-clock on a shared machine: believe it only if it repeats
+            t1 = time.time()
+            real.run(["-R", "exec", "-f", "32", "-u", "2", "-w", "h[0-%d]" % (nh - 1), "sh", "-c", script], timeout=40)
+            dt2 = time.time() - t1
+            if dt2 > 2 + 2 + 6:
+                problems.append((case, "<= 10 s", "%.1f s and %.1f s" % (dt, dt2), "the run took %.1f s (again %.1f s) although the command timeout is 2 s and the watchdog period 2 s" % (dt, dt2)))
     # R2: rsh over loopback: one daemon never acknowledges (hang while connecting), connect timeout 1
     try:
         socks = _rsh_server([("127.7.3.1", "ok"), ("127.7.3.2", "hang"), ("127.7.3.3", "ok")])
@@ -263,8 +268,12 @@ def real_part(ctx, quick):
                     problems.append((case, "output of %s" % a, (ot + et)[-300:], "healthy host %s did not get its output relayed" % a)); break
             if "127.7.3.2: " not in et:
                 problems.append((case, "127.7.3.2 reported", et[-300:], "the host hanging in connect is not reported on standard error under its own name"))
-            if dt > 1 + 2 + 4:
-                problems.append((case, "<= 7 s", "%.1f s" % dt, "the run took %.1f s although the connect timeout is 1 s and the watchdog period 2 s" % dt))
+            if dt > 1 + 2 + 6:
+                t1 = time.time()
+                real.run(["-R", "rsh", "-t", "1", "-w", "127.7.3.[1-3]", "true"], timeout=40)
+                dt2 = time.time() - t1
+                if dt2 > 1 + 2 + 6:
+                    problems.append((case, "<= 9 s", "%.1f s and %.1f s" % (dt, dt2), "the run took %.1f s (again %.1f s) although the connect timeout is 1 s and the watchdog period 2 s" % (dt, dt2)))
     finally:
         for l in socks:
             try:
